@@ -19,3 +19,4 @@ CONFIG = dict(
     trusted=Q.TRUSTED + ["Verus 0.2026.09.13 / Z3"],
 )
 native_replay = Q.native_replay_q
+extra = Q.conformance
